@@ -185,6 +185,22 @@ impl Prop for C05 {
             ));
         }
         v.push(Scope::new(
+            "nested-and-wide",
+            "boxes nested 2..5 deep with gaps 1..2 (every box exactly one rect), and boxes whose label or left neighbour contains a double-width character",
+            |f| {
+                for depth in 2..=5usize {
+                    for gap in 1..=2usize {
+                        f(Case::sn("nested", vec![depth as i64, gap as i64]));
+                    }
+                }
+                for label in ["一", "一二", "a一", "一a", "é一b"] {
+                    for pos in 0..3 {
+                        f(Case::snx("wide", vec![pos], vec![label.to_string()]));
+                    }
+                }
+            },
+        ));
+        v.push(Scope::new(
             "rails-and-rungs",
             "two parallel rails of length 3..9 joined by two rungs at every pair of positions, rails overhanging the rungs on either or both sides, in both orientations, gaps 1..3",
             |f| {
@@ -248,6 +264,65 @@ impl Prop for C05 {
         v
     }
     fn check(&self, scope: &str, case: &Case, cx: &mut Cx) {
+        if scope == "nested-and-wide" {
+            let s8 = 8.0;
+            if case.s == "nested" {
+                let (depth, gap) = (case.n[0] as usize, case.n[1] as usize);
+                let mut cv = shapes::Canvas::new();
+                let mut want: Vec<(f64, f64, f64, f64)> = vec![];
+                for k in 0..depth {
+                    let off = k * (gap + 1);
+                    let w = 2 + 2 * (depth - 1 - k) * (gap + 1);
+                    let h = 1 + 2 * (depth - 1 - k) * (gap + 1) / 1;
+                    let rows = shapes::box_rows(&shapes::SHARP, w, h, None, &[]);
+                    for (r, l) in rows.iter().enumerate() {
+                        cv.text(off as i32, (off + r) as i32, l);
+                    }
+                    want.push(((off as f64 + 0.5) * s8, (2.0 * off as f64 + 1.0) * s8, (w as f64 + 1.0) * s8, 2.0 * (h as f64 + 1.0) * s8));
+                }
+                let drawing = cv.render();
+                let d = match cx.conv_doc(&drawing, &Sett::bare()) {
+                    Some(d) => d,
+                    None => return,
+                };
+                cx.compared();
+                let mut got: Vec<(f64, f64, f64, f64)> = d.of(Kind::Rect).map(|r| (r.xs[0], r.ys[0], r.lens[0], r.lens[1])).collect();
+                got.sort_by(|a, b| a.partial_cmp(b).unwrap());
+                want.sort_by(|a, b| a.partial_cmp(b).unwrap());
+                if got != want || d.elems.len() != depth {
+                    cx.fail("box-not-one-rect", format!("{} nested boxes (gap {}) must be exactly {} rect elements {:?}; got [{}]\n{}", depth, gap, depth, want,
+                        d.elems.iter().take(10).map(|e| e.brief()).collect::<Vec<_>>().join(" ; "), drawing));
+                } else {
+                    cx.outcome(&("nested", depth, gap));
+                }
+            } else {
+                let label = &case.x[0];
+                let cols = enumr::display_cols(label);
+                let pos = case.n[0];
+                // pos 0: label flush left inside; 1: padded inside; 2: the wide text stands left of the box on the middle row
+                let (drawing, bx): (String, usize) = match pos {
+                    0 => (format!("+------+\n|{}{}|\n+------+", label, " ".repeat(6 - cols)), 0),
+                    1 => (format!("+------+\n| {}{}|\n+------+", label, " ".repeat(5 - cols)), 0),
+                    _ => (format!("{}+------+\n{} |      |\n{}+------+", " ".repeat(cols + 1), label, " ".repeat(cols + 1)), cols + 1),
+                };
+                let d = match cx.conv_doc(&drawing, &Sett::bare()) {
+                    Some(d) => d,
+                    None => return,
+                };
+                cx.compared();
+                let rects: Vec<_> = d.of(Kind::Rect).collect();
+                let ok = rects.len() == 1
+                    && (rects[0].xs[0], rects[0].ys[0], rects[0].lens[0], rects[0].lens[1]) == ((bx as f64 + 0.5) * s8, s8, 7.0 * s8, 4.0 * s8)
+                    && d.elems.iter().all(|e| e.kind == Kind::Rect || e.kind == Kind::Text);
+                if !ok {
+                    cx.fail("box-not-one-rect", format!("box with the double-width label {:?} (variant {}) must be one rect; got [{}]\n{}", label, pos,
+                        d.elems.iter().take(8).map(|e| e.brief()).collect::<Vec<_>>().join(" ; "), drawing));
+                } else {
+                    cx.outcome(&("wide", label.clone(), pos));
+                }
+            }
+            return;
+        }
         if !scope.starts_with("boxes") {
             let d = match cx.conv_doc(&case.s, &Sett::bare()) {
                 Some(d) => d,
